@@ -312,7 +312,9 @@ def settledAfter (ops : List POp) : Bool :=
     | .rem _ => (false, st.2)
     | .refit _ => (true, st.2)
     | .rebalance _ => (st.1, st.2 || !st.1)
-    | .rebuild _ _ => (true, false)) (false, false)
+    | .rebuild _ _ => (true, false)
+    | .rebuildS _ _ _ => (true, false)
+    | .rebuildN _ _ _ _ _ => (true, false)) (false, false)
   r.1 && !r.2
 
 /-- Oracle for `mixq` / `mixb`: one answer per checkpoint, in order.  At every checkpoint whose prefix is settled the
